@@ -29,7 +29,7 @@ try:
         for p in built:
             r = sh(os.path.join(verif, "bin/nfpmcheck"), "-verif", verif, "-out", tmp, "-repo", wt, "-property", p, "-tier", "quick")
             if r.returncode != 0:
-                fired[p] = [l.strip() for l in r.stdout.splitlines() if "rule=" in l][:3]
+                fired[p] = [l.strip() for l in r.stdout.splitlines() if l.startswith("  rule=")][:3]
         own = meta["breaks_property"]
         meta["checks_fired_quick"] = fired
         meta["caught_by_own_property"] = own in fired
